@@ -1121,3 +1121,21 @@ Proof.
   intros I H. destruct script_Q as [_ QS]. destruct (QS _ _ _ _ I H) as (A & B & _ & _ & _ & C & D).
   split; [exact A|]. split; [exact B|]. split; [exact C|exact D].
 Qed.
+
+Lemma bind_ret {A} (m : outcome A) : bind m (fun x => Ok x) = m.
+Proof. destruct m; reflexivity. Qed.
+
+(* the top-level operation "borrower takes one loan" is exactly flash_loan with the scripted body *)
+Lemma step_single_loan st z s : step st (ORun (SCons (ALoan z s) SNil)) = flash_loan ADV z (run_script z s) st.
+Proof. cbn [step run_script run_action]. apply bind_ret. Qed.
+
+Lemma step_router_loan st u z pre s : is_user st u = true -> step st (ORouterLoan u z pre s) = router_loan u z pre s st.
+Proof. intros H. cbn [step]. rewrite H. reflexivity. Qed.
+
+Lemma router_pays_quote u z st st' : u <> ROUTER -> u <> VAULT -> complete_loan u z st = Ok st' ->
+  exists q pf ff bf, payback (conf st) z = Ok (q, pf, ff, bf) /\
+    bal st' = bal st + q /\ get (ab st') ROUTER = 0 /\ get (ab st') u = get (ab st) u + (get (ab st) ROUTER - q).
+Proof.
+  intros Hr Hv H. destruct (complete_loan_effect _ _ _ _ Hr Hv H) as (q & pf & ff & bf & A & B & C & D & _).
+  exists q, pf, ff, bf. auto.
+Qed.
